@@ -133,11 +133,26 @@ func buildObject(n *sx.Node) *schema.ObjectSchema {
 	for _, p := range n.List[3].List {
 		props[p.List[0].Str] = buildProperty(p.List[1])
 	}
+	if buildNilProps && len(props) == 0 && len(n.List[1].Str)%2 == 0 {
+		props = nil // NewObjectSchema(id, nil): an object without properties need not be given an empty map
+	}
+	if buildLiteralObjects {
+		// not built by a constructor: the exported fields only, the decoded-default cache still empty (the state
+		// of an object that came out of a schema description before it was linked)
+		return &schema.ObjectSchema{IDValue: n.List[1].Str, PropertiesValue: props, IDUnenforcedValue: n.List[2].Atom == "1"}
+	}
 	if n.List[2].Atom == "1" {
 		return schema.NewUnenforcedIDObjectSchema(n.List[1].Str, props)
 	}
 	return schema.NewObjectSchema(n.List[1].Str, props)
 }
+
+// buildLiteralObjects: map-based objects are built as struct literals instead of through NewObjectSchema
+// (set by a runner around one build; the harness worker is single-threaded).
+var buildLiteralObjects bool
+
+// buildNilProps: every other object without properties (by the length of its id) gets a nil property map.
+var buildNilProps bool
 
 func buildScope(n *sx.Node) *schema.ScopeSchema {
 	root := n.List[2].Str
